@@ -100,9 +100,21 @@ where
                 }
             }
         }
-        let p = cones
-            .iter()
-            .try_fold(0usize, |acc, cone| acc.checked_add(cone.nvars()));
+        // the size of a cone, or None when it does not fit a usize (nvars() would wrap)
+        let checked_nvars = |cone: &SupportedConeT<T>| -> Option<usize> {
+            match cone {
+                SupportedConeT::GenPowerConeT(α, dim2) => α.len().checked_add(*dim2),
+                #[cfg(feature = "sdp")]
+                SupportedConeT::PSDTriangleConeT(dim) => dim
+                    .checked_add(1)
+                    .and_then(|d1| dim.checked_mul(d1))
+                    .map(|t| t >> 1),
+                _ => Some(cone.nvars()),
+            }
+        };
+        let p = cones.iter().try_fold(0usize, |acc, cone| {
+            checked_nvars(cone).and_then(|k| acc.checked_add(k))
+        });
         if !P.is_square()
             || P.ncols() != q.len()
             || A.ncols() != q.len()
